@@ -44,7 +44,7 @@ def bad_operator(inputs, value):
 
 
 def run(ctx: Ctx):
-  for r in (r1, r2, r3, r4):
+  for r in (r1, r2, r3, r4, r8):
     ctx.guard(r)
   from mlmverif.props import c18, c19
   ctx.include('R-C08-5', '"leaves the caller\'s input objects untouched": the'
@@ -52,12 +52,16 @@ def run(ctx: Ctx):
               ' fresh-copy discipline, R-C18-2 routing)', _c18_shared, min_instances=8)
   ctx.include('R-C08-6', 'operators re-batch inputs/outputs with their own'
               ' batch size and column count (R-C19-4 wiring)', c19.r4, min_instances=4)
+  from mlmverif.props import c12
+  ctx.include('R-C08-7', '"filter keeps order and drops exactly the rejected'
+              ' records": with error skipping the decisions stay paired with'
+              ' their own records (R-C12-1)', c12.r1, min_instances=4)
 
 
 def _c18_shared(sub):
   from mlmverif.props import c18
-  c18.r1(sub)
-  c18.r2(sub)
+  sub.guard(c18.r1)
+  sub.guard(c18.r2)
 
 
 def _view_vars(fn: ast.AST) -> set[str]:
@@ -374,11 +378,92 @@ def _guarded(fn, sub, fld) -> bool:
   return False
 
 
+def _is_dict_test(t: ast.AST) -> str | None:
+  """Name tested to be a dict by `isinstance(n, dict)` / `_is_dict(n)`."""
+  if isinstance(t, ast.Call) and t.args and isinstance(t.args[0], ast.Name):
+    fn = unparse(t.func)
+    if fn == '_is_dict' and len(t.args) == 1:
+      return t.args[0].id
+    if fn == 'isinstance' and len(t.args) == 2 and unparse(t.args[1]) == 'dict':
+      return t.args[0].id
+  return None
+
+
+def r8(ctx: Ctx):
+  rule = 'R-C08-8'
+  ctx.rule(rule, 'key-spec flattening agrees everywhere: a dict entry of an'
+           ' output/assign key specification contributes its KEYS (the'
+           ' assigned names) — every site of transform.py that tells dict'
+           ' entries apart (build-time key sets, the assign-key validity'
+           ' check, the runner\'s aggregate keys) iterates the dict itself and'
+           ' none projects it through .values()/.items(); otherwise invalid'
+           ' key combinations pass the build-time check and are mis-routed')
+  mi = ctx.repo.module(TR)
+  fns = list(mi.functions.values()) + [m for c in mi.classes.values() for m in c.methods.values()]
+  n = 0
+  for fi in fns:
+    dict_vars: set[str] = set()      # a name bound to one dict entry
+    dict_colls: set[str] = set()     # a name bound to an iterable of dict entries
+    for x in ast.walk(fi.node):
+      if isinstance(x, (ast.IfExp, ast.If)):
+        v = _is_dict_test(x.test)
+        if v:
+          dict_vars.add(v)
+      if isinstance(x, ast.comprehension):
+        for c in x.ifs:
+          v = _is_dict_test(c)
+          if v:
+            dict_vars.add(v)
+      if isinstance(x, ast.Assign) and isinstance(x.value, ast.Call) and unparse(
+          x.value.func).endswith('partition') and x.value.args and unparse(
+              x.value.args[0]) == '_is_dict' and isinstance(x.targets[0], ast.Tuple) and len(
+                  x.targets[0].elts) == 2 and isinstance(x.targets[0].elts[1], ast.Name):
+        dict_colls.add(x.targets[0].elts[1].id)
+    if not dict_vars and not dict_colls:
+      continue
+    # loop variables over a dict collection are dict entries
+    for x in ast.walk(fi.node):
+      if isinstance(x, (ast.For, ast.comprehension)) and isinstance(x.iter, ast.Name) and (
+          x.iter.id in dict_colls) and isinstance(x.target, ast.Name):
+        dict_vars.add(x.target.id)
+    n += 1
+    bad = None
+    used = False
+    for x in ast.walk(fi.node):
+      if isinstance(x, ast.Call) and isinstance(x.func, ast.Attribute) and x.func.attr in (
+          'values', 'items') and isinstance(x.func.value, ast.Name) and x.func.value.id in dict_vars:
+        bad = x
+      if isinstance(x, ast.Name) and isinstance(x.ctx, ast.Load) and (
+          x.id in dict_vars or x.id in dict_colls):
+        used = True
+    if bad is not None:
+      ctx.fail(rule, fi, f'{fi.qualname}: dict key entries contribute their keys',
+               f'{fi.qualname} projects a dict key entry through `{unparse(bad)}`: its'
+               ' key set lists the names inside the function output instead of'
+               ' the assigned keys, so the build-time checks accept colliding'
+               ' assignments and reject valid ones', node=bad)
+    elif used:
+      ctx.ok(rule, fi, f'{fi.qualname}: dict entries flattened by iteration (keys)', fi.node)
+    else:
+      raise AnalysisError(f'{rule}: cannot see how {fi.qualname} uses its dict entries')
+  ctx.floor(rule, 4, n)
+
+
 from mlmverif.selfcheck import B, OK  # noqa: E402
 
 _F = 'chainables/tree_fns.py'
 _T = 'chainables/transform.py'
 VARIANTS = [
+    B('output-keys-from-dict-values', _T,
+      '      non_dict_keys, dict_keys = mit.partition(_is_dict, fn.output_keys)\n      # Aggregate and Assign/Apply Ops are separated into different transforms.\n      # The base TreeFn means this is an Apply Op.\n      if type(fn) is tree_fns.TreeFn:  # pylint: disable=unidiomatic-typecheck\n        result = set()\n      result.update(itertools.chain(non_dict_keys, *dict_keys))',
+      '      if type(fn) is tree_fns.TreeFn:  # pylint: disable=unidiomatic-typecheck\n        result = set()\n      for key in fn.output_keys:\n        result.update(key.values() if _is_dict(key) else (key,))',
+      'R-C08-8'),
+    OK('output-keys-explicit-loop', _T,
+       '      non_dict_keys, dict_keys = mit.partition(_is_dict, fn.output_keys)\n      # Aggregate and Assign/Apply Ops are separated into different transforms.\n      # The base TreeFn means this is an Apply Op.\n      if type(fn) is tree_fns.TreeFn:  # pylint: disable=unidiomatic-typecheck\n        result = set()\n      result.update(itertools.chain(non_dict_keys, *dict_keys))',
+       '      if type(fn) is tree_fns.TreeFn:  # pylint: disable=unidiomatic-typecheck\n        result = set()\n      for key in fn.output_keys:\n        result.update(key if _is_dict(key) else (key,))'),
+    B('check-assign-keys-from-items', _T,
+      '    new_keys = set(itertools.chain(non_dict_keys, *dict_keys))',
+      '    new_keys = set(non_dict_keys) | {v for d in dict_keys for v in d.values()}', 'R-C08-8'),
     B('revert-normalize-guard', _F,
       '        bool(self.output_keys) and self.output_keys[0] == tree.Key.SELF\n',
       '        self.output_keys[0] == tree.Key.SELF\n', 'R-C08-4'),
